@@ -147,8 +147,10 @@ def auto_connect_runs(ctx):
         srv.token_for = token_for
         state = dict(power=True, t2=rng.randrange(34, 61), mode=rng.randrange(1, 6))
 
-        def tcp(loop, net, state=state, tok=tok, key=key):
-            landev.LanDevice(loop, net, acdev.ACModel(state=state), version=3, token=tok, key=key, seed=k)
+        def tcp(loop, net, state=state, tok=tok, key=key, k=k):
+            d = landev.LanDevice(loop, net, acdev.ACModel(state=state), version=3, token=tok, key=key, seed=k)
+            if k % 3 == 2:
+                d.reply_filter = lambda kind, tr, packets: [] if kind == "hs_bad" else packets      # this unit stays silent when it does not know the token
         v = disc.run_discovery([(0.3, ip, 6445, build(rng, ident, ip, 3))], auto_connect=True, tcp_devices=tcp, cloud_client=srv.client,
                                account=account, password=password)
         n += 1
@@ -184,7 +186,65 @@ def auto_connect_runs(ctx):
     traces += retry_after_failed_login(ctx)
     traces += region_sequence_runs(ctx)
     traces += auto_connect_fault_runs(ctx)
+    traces += concurrent_token_runs(ctx)
     return n, bad, traces
+
+
+def concurrent_token_runs(ctx):
+    """Several get_token() calls in flight on ONE cloud object while the cloud is slow (seconds pass between building a request and sending it):
+    every request that reaches the server still verifies.  The lock serialises the requests, so each call's requests are judged as one call."""
+    from msmart.cloud import NetHomePlusCloud, CloudError
+    import random
+    out = []
+    for k in range(ctx.pick(6, 80)):
+        rng = random.Random(ctx.seed * 131 + k)
+        account, password = rand_text(rng, rng.randrange(3, 20)), rand_text(rng, rng.randrange(1, 16))
+        vloop.install_clock()
+        loop = vloop.new_loop()
+        vloop.Net(loop)
+        srv = cloudsrv.ModelCloud(account, password, rng=rng)
+        srv.verify = False
+        delays = [rng.choice([0, 0.4, 1.3, 2.6]) for _ in range(8)]
+
+        async def slow(request, srv=srv, delays=delays):
+            import asyncio
+            if request.url.path.endswith("getToken") and delays:
+                await asyncio.sleep(delays.pop(0))
+            return srv.handle(request)
+        import httpx
+        client = lambda slow=slow: httpx.AsyncClient(transport=httpx.MockTransport(slow))
+        udpids = [rc.sha256(rng.randbytes(6)).hex()[:32] for _ in range(rng.choice([2, 3]))]
+        lists = {u: concrete_list(rng, [{"udpId": 2}, {"udpId": 1}], u) for u in udpids}
+        srv.token_for = lambda u, lists=lists: lists.get(u, [])
+        results = {}
+
+        async def go():
+            import asyncio
+            cloud = NetHomePlusCloud("US", account=account, password=password, get_async_client=client)
+            await cloud.login()
+
+            async def one(u):
+                try:
+                    t, key = await cloud.get_token(u)
+                    results[u] = {"ev": "ret", "r": "ok", "token": B(str(t).encode()), "key": B(str(key).encode())}
+                except CloudError:
+                    results[u] = {"ev": "ret", "r": "cloud_error", "token": [], "key": []}
+                except Exception as ex:  # noqa: BLE001
+                    results[u] = {"ev": "ret", "r": "other:" + type(ex).__name__, "token": [], "key": []}
+            await asyncio.gather(*(one(u) for u in udpids))
+        vloop.run(loop, go())
+        reqs = list(srv.events)
+        evs = [{"ev": "call", "op": "login", "udpid": [], "list": []}]
+        evs += [r for r in reqs if not bytes(r["path"]).endswith(b"getToken")]
+        evs.append({"ev": "ret", "r": "ok", "token": [], "key": []})
+        for u in udpids:
+            lst = lists[u]
+            evs.append({"ev": "call", "op": "tok", "udpid": B(u.encode()),
+                        "list": [{"udpId": B(e["udpId"].encode()), "token": B(e["token"].encode()), "key": B(e["key"].encode())} for e in lst]})
+            evs += [r for r in reqs if bytes(r["path"]).endswith(b"getToken") and any(bytes(f["k"]) == b"udpid" and bytes(f["v"]) == u.encode() for f in r["fields"])]
+            evs.append(results.get(u, {"ev": "ret", "r": "other:missing", "token": [], "key": []}))
+        out.append({"account": B(account.encode()), "password": B(password.encode()), "events": evs, "scn": [("concurrent_get_token", len(udpids))], "region_mode": False})
+    return out
 
 
 def auto_connect_fault_runs(ctx):
